@@ -48,10 +48,22 @@ def r11a(ctx: Context) -> None:
         t.id for n in walk_local(logger.node) if isinstance(n, ast.Assign) and ".rule_id" in norm(n.value)
         for t in n.targets if isinstance(t, ast.Name)
     }
-    line_names = {
-        t.id for n in walk_local(logger.node) if isinstance(n, ast.Assign) and ".line_number" in norm(n.value)
-        for t in n.targets if isinstance(t, ast.Name)
-    }
+    line_names: Set[str] = set()
+    local_values: Dict[str, List[ast.AST]] = {}
+    for n in walk_local(logger.node):
+        if isinstance(n, (ast.Assign, ast.AnnAssign)) and getattr(n, "value", None) is not None:
+            for t in (n.targets if isinstance(n, ast.Assign) else [n.target]):
+                if isinstance(t, ast.Name):
+                    local_values.setdefault(t.id, []).append(n.value)
+    grew = True
+    while grew:  # locals computed from the failure's line (the line itself, or what a table holds for it)
+        grew = False
+        for name, values in local_values.items():
+            if name not in line_names and name not in id_names and any(
+                ".line_number" in norm(v) or any(isinstance(sub, ast.Name) and sub.id in line_names for sub in ast.walk(v)) for v in values
+            ):
+                line_names.add(name)
+                grew = True
 
     def mentions(node: ast.AST, names: Set[str], attr: str) -> bool:
         return any((isinstance(sub, ast.Name) and sub.id in names) or (isinstance(sub, ast.Attribute) and sub.attr == attr) for sub in ast.walk(node))
@@ -108,8 +120,10 @@ def r11a(ctx: Context) -> None:
                     if isinstance(op, ast.In) and left_is_line:
                         kinds.add("table")
                     elif isinstance(op, ast.In) and right_is_line and mentions(left, id_names, "rule_id"):
-                        # the rule id is looked up in what the table holds for this line: table.get(line, ()) / table[line]
-                        lookups = [sub for sub in ast.walk(right) if (isinstance(sub, ast.Subscript) and mentions(sub.slice, line_names, "line_number"))
+                        # the rule id is looked up in what the table holds for this line: table.get(line, ()) / table[line],
+                        # possibly kept in a local first
+                        looked_in = [right] + (local_values.get(right.id, []) if isinstance(right, ast.Name) else [])
+                        lookups = [sub for holder in looked_in for sub in ast.walk(holder) if (isinstance(sub, ast.Subscript) and mentions(sub.slice, line_names, "line_number"))
                                    or (isinstance(sub, ast.Call) and isinstance(sub.func, ast.Attribute) and sub.func.attr == "get" and sub.args and mentions(sub.args[0], line_names, "line_number"))]
                         if lookups:
                             kinds.add("table")
@@ -868,33 +882,41 @@ def r11j(ctx: Context) -> None:
                         found |= normalisations(func, node.value, depth + 1)
         return found
 
-    tests = [n for n in walk_local(recogniser.node) if isinstance(n, ast.Call) and isinstance(n.func, ast.Attribute) and n.func.attr == "endswith" and n.args]
+    def family(root: FuncInfo) -> List[FuncInfo]:
+        """the function and the helpers of its class that it reaches (code extracted from it is still its code)"""
+        return [root] + [prog.functions[q] for q in sorted(prog.reachable([root])) if prog.functions[q].cls == root.cls and prog.functions[q] != root]
+
+    tests = [(f, n) for f in family(recogniser) if f != compiler for n in walk_local(f.node) if isinstance(n, ast.Call) and isinstance(n.func, ast.Attribute) and n.func.attr == "endswith" and n.args]
     if not tests:
         raise AnalysisError("look_for_pragmas: the test for the closing sequence was not found")
     accepted: Set[str] = set()
     recogniser_strips = False
-    for test in tests:
+    for holder, test in tests:
         for sub in ast.walk(test.args[0]):
             if isinstance(sub, ast.Constant) and isinstance(sub.value, str):
                 accepted.add(sub.value)
-        recogniser_strips = recogniser_strips or bool({"rstrip", "strip"} & normalisations(recogniser, test.func.value))
+        recogniser_strips = recogniser_strips or bool({"rstrip", "strip"} & normalisations(holder, test.func.value))
     cuts: List[Tuple[ast.AST, Optional[str], ast.AST]] = []  # (node, sequence cut off, text it is cut from)
-    for node in walk_local(compiler.node):
-        if isinstance(node, ast.Subscript) and isinstance(node.slice, ast.Slice) and node.slice.upper is not None:
-            upper = node.slice.upper
-            if isinstance(upper, ast.UnaryOp) and isinstance(upper.op, ast.USub):
-                sources = [upper.operand]
-                if isinstance(upper.operand, ast.Name):  # a length kept in a local
-                    sources = [n.value for n in walk_local(compiler.node) if isinstance(n, (ast.Assign, ast.AnnAssign)) and getattr(n, "value", None) is not None
-                               and any(isinstance(t, ast.Name) and t.id == upper.operand.id for t in (n.targets if isinstance(n, ast.Assign) else [n.target]))]
-                literals = [sub.value for source in sources for sub in ast.walk(source) if isinstance(sub, ast.Constant) and isinstance(sub.value, str)]
-                for literal in literals or [None]:
-                    cuts.append((node, literal, node.value))
-        if isinstance(node, ast.Call) and isinstance(node.func, ast.Attribute) and node.func.attr == "removesuffix" and node.args and isinstance(node.args[0], ast.Constant):
-            cuts.append((node, node.args[0].value, node.func.value))
+    cut_holder: Dict[int, FuncInfo] = {}
+    compiler_family = [f for f in family(compiler) if f not in family(recogniser) or f == compiler]
+    for holder in compiler_family:
+        for node in walk_local(holder.node):
+            cut_holder[id(node)] = holder
+            if isinstance(node, ast.Subscript) and isinstance(node.slice, ast.Slice) and node.slice.upper is not None:
+                upper = node.slice.upper
+                if isinstance(upper, ast.UnaryOp) and isinstance(upper.op, ast.USub):
+                    sources = [upper.operand]
+                    if isinstance(upper.operand, ast.Name):  # a length kept in a local
+                        sources = [n.value for n in walk_local(holder.node) if isinstance(n, (ast.Assign, ast.AnnAssign)) and getattr(n, "value", None) is not None
+                                   and any(isinstance(t, ast.Name) and t.id == upper.operand.id for t in (n.targets if isinstance(n, ast.Assign) else [n.target]))]
+                    literals = [sub.value for source in sources for sub in ast.walk(source) if isinstance(sub, ast.Constant) and isinstance(sub.value, str)]
+                    for literal in literals or [None]:
+                        cuts.append((node, literal, node.value))
+            if isinstance(node, ast.Call) and isinstance(node.func, ast.Attribute) and node.func.attr == "removesuffix" and node.args and isinstance(node.args[0], ast.Constant):
+                cuts.append((node, node.args[0].value, node.func.value))
     if not cuts:
         raise AnalysisError("compile_single_pragma: the place where the closing sequence is cut off was not found")
-    compiler_strips = any({"rstrip", "strip"} & normalisations(compiler, text) for _node, _literal, text in cuts)
+    compiler_strips = any({"rstrip", "strip"} & normalisations(cut_holder.get(id(node), compiler), text) for node, _literal, text in cuts)
     key = func_key(compiler) + ": trailing whitespace"
     if recogniser_strips and not compiler_strips:
         rule.fail(key, where(compiler, cuts[0][0]), f"the recogniser looks for the closing sequence after stripping trailing whitespace, the compiler cuts the last characters of the line as recorded ('{norm(cuts[0][0])[:70]}'): a pragma followed by a blank (allowed by the documentation and accepted by the recogniser) names the rule 'id--' and suppresses nothing")
@@ -910,7 +932,7 @@ def r11j(ctx: Context) -> None:
     if not documented:
         raise AnalysisError("pragmas.md: no closing sequence of a pragma comment is shown")
     handled = {literal for _node, literal, _text in cuts if literal} | {
-        sub.value for node in walk_local(compiler.node) if isinstance(node, ast.Call) and isinstance(node.func, ast.Attribute) and node.func.attr == "endswith"
+        sub.value for holder in compiler_family for node in walk_local(holder.node) if isinstance(node, ast.Call) and isinstance(node.func, ast.Attribute) and node.func.attr == "endswith"
         for arg in node.args for sub in ast.walk(arg) if isinstance(sub, ast.Constant) and isinstance(sub.value, str)
     }
     for sequence in documented:
